@@ -42,6 +42,11 @@ def modcovar_marple (X,IP):
     :References: [Marple]_
     """
     Pv = []
+    # integer samples (e.g. 16-bit PCM data) must not be multiplied in their
+    # own (possibly narrow) dtype
+    X = np.asarray(X)
+    if X.dtype.kind in 'iub':
+        X = X.astype(float)
     N = len(X)
     A = np.zeros(N, dtype=complex)
     D = np.zeros(N, dtype=complex)
